@@ -117,6 +117,8 @@ def prune(parent, prefix, keep):
     ents.sort(key=lambda e: os.path.getmtime(os.path.join(parent, e)))
     for e in ents[:-2] if len(ents) > 2 else []:
         p = os.path.join(parent, e)
+        if time.time() - os.path.getmtime(p) < 3600:   # may belong to a concurrent run on another tree
+            continue
         shutil.rmtree(p, ignore_errors=True) if os.path.isdir(p) else os.unlink(p)
 
 
